@@ -96,8 +96,9 @@ def prob_vector(rng, n, pool):
         v = rng.choice([0.5, 0.25, 0.2, 0.1])
         vals = [v] * n
     elif pool == 'counts':       # what a trainer would write: k/N
-        N = rng.randint(n, 4 * n + 3)
-        vals = [rng.randint(1, 4) / N for _ in range(n)]
+        cnt = [rng.randint(1, 4) for _ in range(n)]
+        N = sum(cnt) + rng.randint(0, 2 * n)
+        vals = [c / N for c in cnt]
     else:
         vals = [rng.random() * 0.9 + 1e-3 for _ in range(n)]
     vals.sort(reverse=True)
@@ -137,9 +138,9 @@ def rows_grouped(rng, values, ngroups, pool):
             rows.append([v, probs[g]])
     return rows
 
-def gen_terminal(rng, label, pool, max_groups=4, max_per_group=3):
+def gen_terminal(rng, label, pool, max_groups=4, max_per_group=3, min_groups=1):
     t, n = label[0], int(label[1:]) if label[1:] else 1
-    ng = rng.randint(1, max_groups)
+    ng = rng.randint(min(min_groups, max_groups), max_groups)
     want = ng + rng.randint(0, ng * (max_per_group - 1))
     def fill(src, alphabet, ok=lambda w: True):
         tries = 0
@@ -197,7 +198,7 @@ def gen_omen(rng, alphabet=None, ngram=None, nlevels=None, max_len=None):
     return dict(ngram=ngram, ip=ip, cp=cp, ln=ln, probs=[], keyspace=[])
 
 def gen_spec(rng, *, pool=None, n_base=None, max_len=4, labels=None, with_m=None, omen_levels=None,
-             max_groups=4, max_per_group=3, dup_base=None):
+             max_groups=4, max_per_group=3, dup_base=None, min_groups=1):
     """Random well-formed ruleset spec."""
     pool = pool or rng.choice(POOLS)
     labels = labels or rng.sample(LABELS, rng.randint(2, 5))
@@ -236,7 +237,8 @@ def gen_spec(rng, *, pool=None, n_base=None, max_len=4, labels=None, with_m=None
                 j += 1
             used.add(s[i:j]); i = j
     for lab in sorted(used):
-        terms[lab] = gen_terminal(rng, lab, rng.choice([pool, pool, 'counts']), max_groups, max_per_group)
+        vpool = rng.choice([pool, pool, 'counts', 'random']) if pool != 'equal' else rng.choice(['equal', 'dyadic', 'counts'])
+        terms[lab] = gen_terminal(rng, lab, vpool, max_groups, max_per_group, min_groups)
         if lab[0] == 'A':
             terms['C' + lab[1:]] = gen_terminal(rng, 'C' + lab[1:], rng.choice([pool, 'counts']), max(1, max_groups - 1), 2)
     if with_m:
